@@ -538,7 +538,7 @@ def leaf_dbg(kind, x, ty=None, tparams=()):
 
 def parse_answer(ans):
     ans = ans.split(' text=', 1)[0]
-    ans = re.sub(r' (ops=[01]{4}|ne=(true|false))$', '', ans)
+    ans = re.sub(r' (ops=[01]{4}|ne=(true|false)|writes=\S*)$', '', ans)
     m = re.match(r'spec=(.*) eval=(.*)$', ans)
     return (m.group(1), m.group(2)) if m else (None, None)
 
@@ -583,14 +583,18 @@ def expected_observation(item, cfg, q, spec, all_answers):
         return [spec]
     k, vals = a if a else (None, None)
     if op == 'hash':
+        # the discriminant write (type and value) comes from the Lean specification (`writes=`); only the fields' own
+        # writes are filled in here (`Leaf` and `u8` write one `u8`, `PhantomData` nothing)
+        w = all_answers.get(('writes', enc(a)))
+        if w is None:
+            return None
         out = []
-        for e in [x for x in spec.split(',') if x]:
-            if e.startswith('HD'):
-                out.append('%s:%d' % (repr_name(item), rust_discrs(item)[int(e[2:])]))
-            else:
-                i = int(e[2:])
-                if kinds[k][i] != 'ph':
-                    out.append('u8:%d' % vals[i])
+        for e in [x for x in w.split(',') if x]:
+            m = re.fullmatch(r'@(\d+)@', e)
+            if not m:
+                out.append(e)
+            elif kinds[k][int(m.group(1))] != 'ph':
+                out.append('u8:%d' % vals[int(m.group(1))])
         return [','.join(out)]
     if op == 'clone':
         v, log = split_val_log(spec)
@@ -723,6 +727,11 @@ def run_b_(cfg, named_items, hostile=False):
             if q[0] == 'pcmp':
                 m = re.search(r' ops=([01]{4})$', a)
                 specs[('ops', enc(q[1]), enc(q[2]))] = m.group(1) if m else None
+            if q[0] == 'hash':
+                m = re.search(r' writes=(\S*)$', a)
+                specs[('writes', enc(q[1]))] = m.group(1) if m else None
+                if not m:
+                    report['model_failures'].append(dict(name=name, source=it.rust(), query=qstr(q), answer=a[:200]))
             if q[0] == 'debug':
                 st, et = parse_text(a)
                 specs[('debugtext', enc(q[1]))] = st
